@@ -145,6 +145,204 @@ func c05Conc(algo string, forced bool, scratch string, round int) string {
 	return fmt.Sprintf("CONC.%s forced=%d sends=%d failed=2.0+3.0 sent=%s", algo, f, nlog, nEidList(es))
 }
 
+// c05NewRun: a run with its mock CLAs and an open core on a fresh store directory.
+func c05NewRun(h *nHist, dir string) (*nRun, error) {
+	r := &nRun{h: h, dir: dir, clas: map[int]*nCLA{}, count: map[[3]int]int{}}
+	r.t0 = bpv7.DtnTimeNow()
+	net := &verifNet{}
+	for _, p := range h.peers {
+		r.clas[p.addr] = &nCLA{verifMockCLA: net.newCLA(fmt.Sprintf("a%d", p.addr), p.eid.real(), true), r: r, addr: p.addr}
+	}
+	return r, r.open()
+}
+
+// c05Item: the stored item of the first bundle with this tag among the candidate sequence numbers
+// (present, pending, constraints as letters).
+func (r *nRun) c05Item(tag int) (present, pending bool, cons string) {
+	d := r.h.bundle(tag)
+	for seq := 0; seq < 8; seq++ {
+		bi, err := r.core.store.QueryId(bpv7.BundleID{SourceNode: d.src.real(),
+			Timestamp: bpv7.NewCreationTimestamp(r.realTs(d.ts), uint64(seq))})
+		if err != nil || len(bi.Parts) == 0 {
+			continue
+		}
+		if b, err := bi.Parts[0].Load(); (err == nil || len(b.CanonicalBlocks) > 0) && nTagOf(&b) == tag {
+			cons = ""
+			if v, ok := bi.Properties["bundlepack/constraints"]; ok {
+				m := v.(map[Constraint]bool)
+				for _, cl := range []struct {
+					c Constraint
+					l string
+				}{{DispatchPending, "d"}, {ForwardPending, "f"}, {ReassemblyPending_, "r"}, {Contraindicated, "c"}, {LocalEndpoint, "l"}} {
+					if _, has := m[cl.c]; has {
+						cons += cl.l
+					}
+				}
+			}
+			if cons == "" {
+				cons = "-"
+			}
+			return true, bi.Pending, cons
+		}
+	}
+	return false, false, "-"
+}
+
+// c05Mid: the persistent record of a bundle at the moment one of its transmissions is in progress (a
+// convergence layer's Send has been entered and has not answered yet): whatever happens to the process
+// now, this record is what the next start finds. scen: A = first transmission, straight from the
+// submission; B = a retry of a waiting bundle when a peer appears; C = a retry by the periodic job after
+// a failed first attempt. Reported: the record inside Send, and after the (failing) Send returned.
+func c05Mid(algo string, scen string, scratch string) string {
+	h := c05Base(algo, false, "plain")
+	h.op = "MID." + algo
+	h.bundles = h.bundles[:1]
+	h.oracle = map[[2]int]string{{1, 1}: "0"}
+	dir := filepath.Join(scratch, fmt.Sprintf("mid-%s-%s", algo, scen))
+	defer os.RemoveAll(dir)
+	r, err := c05NewRun(h, dir)
+	if err != nil {
+		return "# MID cannot open core: " + err.Error()
+	}
+	defer func() { nCloseCore(r.core) }()
+	type rec struct {
+		present, pending bool
+		cons             string
+	}
+	var mids []rec
+	var mu sync.Mutex
+	arm := func() {
+		r.gate = func(addr, tag int, ok bool) {
+			if tag != 1 {
+				return
+			}
+			p, pe, c := r.c05Item(1)
+			mu.Lock()
+			mids = append(mids, rec{p, pe, c})
+			mu.Unlock()
+		}
+	}
+	var evs []nEvent
+	switch scen {
+	case "A":
+		evs = []nEvent{{kind: 'U', addr: 1}, {kind: 'S', tag: 1}}
+	case "B":
+		evs = []nEvent{{kind: 'S', tag: 1}, {kind: 'U', addr: 1}}
+	default:
+		evs = []nEvent{{kind: 'U', addr: 1}, {kind: 'S', tag: 1}, {kind: 'T'}}
+	}
+	arm()
+	for _, e := range evs {
+		r.exec(e)
+	}
+	r.gate = nil
+	if len(r.panics) > 0 {
+		return "MID." + algo + " panic"
+	}
+	b2i := func(b bool) int {
+		if b {
+			return 1
+		}
+		return 0
+	}
+	var ms []string
+	for _, m := range mids {
+		ms = append(ms, fmt.Sprintf("%d|%d|%s", b2i(m.present), b2i(m.pending), m.cons))
+	}
+	if len(ms) == 0 {
+		ms = []string{"-"}
+	}
+	p, pe, c := r.c05Item(1)
+	return fmt.Sprintf("MID.%s scen=%s during=%s after=%d|%d|%s", algo, scen, strings.Join(ms, ","), b2i(p), b2i(pe), c)
+}
+
+// c05Overlap: a peer appears while another run of the pending-bundles job is still busy (blocked inside
+// the Send of a slow convergence layer): the run started for the new peer must offer it the waiting
+// bundles all the same. b2 (tag 2) waits for its destination node (peer 2), b1 (tag 1) is an own bundle
+// for a far destination. Run 1 (periodic job, goroutine of its own) blocks in Send(b1 -> CLA 1); then peer 2
+// appears (handler: register, ReportPeerAppeared, checkPendingBundles). Reported: which bundles were handed
+// to CLA 2 by the time that call returned.
+func c05Overlap(algo string, scratch string) string {
+	h := c05Base(algo, false, "same-ms")
+	h.op = "OVL." + algo
+	h.oracle = map[[2]int]string{}
+	dir := filepath.Join(scratch, "ovl-"+algo)
+	defer os.RemoveAll(dir)
+	r, err := c05NewRun(h, dir)
+	if err != nil {
+		return "# OVL cannot open core: " + err.Error()
+	}
+	defer func() { nCloseCore(r.core) }()
+	r.exec(nEvent{kind: 'S', tag: 1})
+	r.exec(nEvent{kind: 'S', tag: 2})
+	entered := make(chan struct{})
+	release := make(chan struct{})
+	var once sync.Once
+	r.gate = func(addr, tag int, ok bool) {
+		if addr == 1 {
+			first := false
+			once.Do(func() { first = true; close(entered) })
+			if first {
+				select {
+				case <-release:
+				case <-time.After(20 * time.Second):
+				}
+			}
+		}
+	}
+	// peer 1 (a forwarder) is connected; the periodic job starts a run
+	m1 := r.clas[1]
+	r.core.claManager.Register(m1)
+	r.core.routing.ReportPeerAppeared(m1)
+	done1 := make(chan struct{})
+	go func() {
+		defer close(done1)
+		defer func() { _ = recover() }()
+		r.core.checkPendingBundles()
+	}()
+	blocked := true
+	select {
+	case <-entered:
+	case <-time.After(10 * time.Second):
+		blocked = false // nothing was handed to CLA 1 (e.g. the algorithm did not choose it)
+	}
+	// peer 2 appears now
+	done2 := make(chan struct{})
+	go func() {
+		defer close(done2)
+		defer func() { _ = recover() }()
+		r.exec(nEvent{kind: 'U', addr: 2})
+	}()
+	returned := true
+	select {
+	case <-done2:
+	case <-time.After(15 * time.Second):
+		returned = false
+	}
+	r.mu.Lock()
+	direct, other := 0, 0
+	for _, l := range r.log {
+		if l.addr == 2 && l.tag == 2 {
+			direct = 1
+		}
+		if l.addr == 2 && l.tag == 1 {
+			other = 1
+		}
+	}
+	r.mu.Unlock()
+	close(release)
+	<-done1
+	<-done2
+	r.gate = nil
+	b2i := func(b bool) int {
+		if b {
+			return 1
+		}
+		return 0
+	}
+	return fmt.Sprintf("OVL.%s blocked=%d returned=%d direct=%d other=%d panics=%d", algo, b2i(blocked), b2i(returned), direct, other, len(r.panics))
+}
+
 // c05Sentinels: short directed histories that run first (the replay phase has a time budget): one per
 // clause and input class of the property, for every algorithm.
 func c05Sentinels(algos []struct {
@@ -229,6 +427,14 @@ func TestVerifC05(t *testing.T) {
 			fmt.Fprintln(out, c05Conc(algo, true, scratch, i))
 			fmt.Fprintln(out, c05Conc(algo, false, scratch, i))
 		}
+	}
+
+	// the persistent record while a transmission is in progress, and a peer appearing during another run
+	for _, algo := range []string{"epidemic", "spray", "binary_spray", "prophet", "dtlsr"} {
+		for _, scen := range []string{"A", "B", "C"} {
+			fmt.Fprintln(out, c05Mid(algo, scen, scratch))
+		}
+		fmt.Fprintln(out, c05Overlap(algo, scratch))
 	}
 
 	var hs []*nHist
